@@ -252,8 +252,119 @@ func (o *Out) BuildOut(r *core.Run, kind string, signed bool, hostile bool) (*Ou
 			return err
 		}
 		m.Doc = doc
+		if t.Int(3, "out.interleave") == 1 {
+			// the returned document is kept while other messages are built; only then is it
+			// serialised: it must not have changed meanwhile
+			if d2, e := sp.BuildAuthRequestDocumentNoSig(); e == nil {
+				d2.WriteToString()
+			}
+			if d3, e := sp.BuildLogoutRequestDocumentNoSig("interleaved", "interleaved"); e == nil {
+				d3.WriteToString()
+			}
+			sp.BuildLogoutResponseDocumentNoSig(world.StatusOK, "_interleaved")
+			r.Fault("other_messages_built_before_serialisation")
+		}
 		m.XML, err = doc.WriteToString()
 		return err
 	})
 	return m, out
+}
+
+// PreHistory gives the SP a past before the measured calls: the same instance first serves
+// under another configuration (other keys through the other API, other strings, the
+// RequestedAuthnContext object with other content, a clock that is hours ahead) using only
+// calls that never sign (unsigned builders, getters, metadata: the signing context is lazily
+// cached by design and must stay untouched), the returned metadata is scribbled over, and
+// then the application re-configures the instance in place to the configuration under test.
+func (o *Out) PreHistory(r *core.Run) bool {
+	t := r.Tape
+	if t.Int(3, "out.prehistory") != 1 {
+		return true
+	}
+	cfgA := *o.Cfg
+	cfgA.Reuse = nil
+	swap := func(k world.KeyStyle) world.KeyStyle {
+		switch k {
+		case world.KeyField, world.KeyTLS:
+			return world.KeySetter
+		case world.KeySetter, world.KeyBoth, world.KeyBothDiffer:
+			return world.KeyField
+		}
+		return k
+	}
+	cfgA.EncStyle, cfgA.SigStyle = o.Cfg.EncStyle, o.Cfg.SigStyle // same API, other keys ...
+	if t.Bool("out.prehistory.swapapi") {
+		cfgA.EncStyle, cfgA.SigStyle = swap(o.Cfg.EncStyle), swap(o.Cfg.SigStyle) // ... or the other API
+	}
+	if t.Int(4, "out.prehistory.nosigkey") == 1 {
+		cfgA.SigStyle = world.KeyNone
+	}
+	if cfgA.EncStyle == world.KeyNone && cfgA.SigStyle == world.KeyNone {
+		cfgA.EncStyle = world.KeyField
+	}
+	cfgA.EncKeyIdx, cfgA.SigKeyIdx = 0, 1
+	nb, na := o.Epoch.Add(-40*24*time.Hour), o.Epoch.Add(800*24*time.Hour)
+	cfgA.EncCert, cfgA.SigCert = world.MintCert(0, nb, na, 11), world.MintCert(1, nb, na, 12)
+	cfgA.SPIssuer, cfgA.IdPIssuer = "https://old-sp.example/meta", "https://old-idp.example/meta"
+	cfgA.ACS, cfgA.SLO = "https://old-sp.example/acs", "https://old-sp.example/slo"
+	cfgA.IdPSSOURL, cfgA.IdPSLOURL = "https://old-idp.example/sso?old=1", "https://old-idp.example/slo?old=1"
+	cfgA.NameIDFormat = "urn:old:format"
+	cfgA.ForceAuthn, cfgA.IsPassive = !o.Cfg.ForceAuthn, !o.Cfg.IsPassive
+	cfgA.SignRequests = false            // with request signing on, BuildAuthURL would sign and create the (by design sticky) signing context
+	cfgA.Skew = o.Cfg.Skew + 3*time.Hour // the clock will move backwards at re-configuration
+	// the same RequestedAuthnContext object, edited in place later
+	var savedCmp string
+	var savedCtx []string
+	if rc := o.Cfg.ReqCtx; rc != nil {
+		savedCmp, savedCtx = rc.Comparison, rc.Contexts
+		rc.Comparison, rc.Contexts = "old-comparison", []string{"urn:old:context:1", "urn:old:context:2"}
+	}
+	nA, err := world.NewSPNode(&cfgA, r.Sim.Time)
+	if err != nil {
+		r.HarnessError("prehistory build: %v", err)
+		return false
+	}
+	sp := nA.SP
+	world.Guard(func() error {
+		sp.GetSigningCertBytes()
+		sp.GetEncryptionCertBytes()
+		if d, err := sp.BuildAuthRequestDocumentNoSig(); err == nil {
+			d.WriteToString()
+			sp.BuildAuthURLFromDocument("old relay", d)
+		}
+		sp.BuildAuthURL("old relay")
+		if d, err := sp.BuildLogoutRequestDocumentNoSig("old-name", "old-session"); err == nil {
+			sp.BuildLogoutBodyPostFromDocument("old relay", d)
+			sp.BuildLogoutBodyPostFromDocument("", d)
+		}
+		if d, err := sp.BuildLogoutResponseDocumentNoSig(world.StatusOK, "_old"); err == nil {
+			sp.BuildLogoutResponseBodyPostFromDocument("", d)
+		}
+		for _, f := range []func() (*types.EntityDescriptor, error){sp.Metadata, func() (*types.EntityDescriptor, error) { return sp.MetadataWithSLO(3) }} {
+			if md, err := f(); err == nil && md != nil && md.SPSSODescriptor != nil {
+				// scribble over what was returned
+				md.EntityID = "scribble"
+				for i := range md.SPSSODescriptor.KeyDescriptors {
+					kd := &md.SPSSODescriptor.KeyDescriptors[i]
+					for j := range kd.EncryptionMethods {
+						kd.EncryptionMethods[j].Algorithm = "urn:scribbled"
+					}
+					for j := range kd.KeyInfo.X509Data.X509Certificates {
+						kd.KeyInfo.X509Data.X509Certificates[j].Data = "scribble"
+					}
+				}
+			}
+		}
+		return nil
+	})
+	if rc := o.Cfg.ReqCtx; rc != nil {
+		rc.Comparison, rc.Contexts = savedCmp, savedCtx // edited in place, same pointer
+	}
+	o.Cfg.Reuse = sp
+	usesSetter := func(k world.KeyStyle) bool {
+		return k == world.KeySetter || k == world.KeyBoth || k == world.KeyBothDiffer
+	}
+	o.Cfg.ReuseUsedEncSetter, o.Cfg.ReuseUsedSigSetter = usesSetter(cfgA.EncStyle), usesSetter(cfgA.SigStyle)
+	r.Fault("sp_prehistory_then_reconfigured")
+	return true
 }
